@@ -34,6 +34,7 @@ fn main() {
     }
     let res = match prop.as_str() {
         "C06" => props::c06::run(&cfg),
+        "C07" => props::c07::run(&cfg),
         "C08" => props::c08::run(&cfg),
         "C09" => props::c09::run(&cfg),
         "C10" => props::c10::run(&cfg),
